@@ -23,6 +23,7 @@ type caseSpec struct {
 	Corr       *corr  `json:"corruption,omitempty"`
 	Limit      int64  `json:"head_size_limit,omitempty"`
 	Pattern    []int  `json:"rotate_after_records,omitempty"`
+	Base       int    `json:"oldest_file_index,omitempty"` // group-index-base: index of the oldest rolled file
 	PayloadLen int    `json:"payload_len,omitempty"`
 	Mode       string `json:"repair_mode,omitempty"`     // fresh | in-place | over-existing
 	Ticks      []int  `json:"tick_schedule,omitempty"`   // 2*(index of underlying write)+kind; kind 0 flush+size-check, 1 size-check only
